@@ -1,5 +1,6 @@
 import PmtilesModel.Proofs.SyncBlocks
 import PmtilesModel.Proofs.SyncOps
+import PmtilesModel.Proofs.SyncMMR
 /-!
 # C20 — makesync + sync converge the local archive to the remote one, byte for byte
 
@@ -189,6 +190,11 @@ theorem sync_noop (hashFn : Bytes → Nat) (file : Bytes) (tdo : Nat) (es : List
     simp only at hts; rw [← hts, List.length_map]
   refine ⟨rfl, ?_, rfl⟩
   rw [length_sortBy, hhave, hl]
+
+/-- **every wanted range is requested exactly once**: the `Range` batches partition the wanted ranges in
+    order, whatever the header-size limit -/
+theorem ranges_requested_once (rs : List Rng) (base maxBytes : Nat) :
+    ((makeMultiRanges rs base maxBytes).map (·.ranges)).flatten = rs := mmr_partition rs base maxBytes
 
 /-! ## file-system level: dry run, failure, commit -/
 
